@@ -47,7 +47,7 @@ theorem C07_links_eq_spec (t : List Desc) (bits : Bits) (o : SubsetOut) (rest : 
   obtain ⟨s, hw, hd, hv, hl⟩ := decodeSubset_items t bits o rest h
   -- the values reported are the values `decV` reads
   have hg := grows_walkList decPrimsU_rec t _ s (by rfl) hw
-  have hvals : s.vals.length = 1 := hg.2.2
+  have hvals : s.vals.length = 1 := hg.2.2.1
   have hV : decV s = (s.vals.headD []).reverse := by
     unfold decV
     cases hs : s.vals with
@@ -56,7 +56,7 @@ theorem C07_links_eq_spec (t : List Desc) (bits : Bits) (o : SubsetOut) (rest : 
   have hitems : items decV s = o.descs.zip o.vals := by
     unfold items; rw [hd, hv, hV]
   rw [← hitems] at hok
-  have := (walk_links_eq_spec decPrimsU_rec t hwf _ s rfl rfl rfl rfl hw hok).1
+  have := (walk_links_eq_spec decPrimsU_rec t hwf _ s rfl rfl rfl rfl trivial hw hok).1
   rw [hl, this, hitems]
 
 end Bufr
